@@ -57,6 +57,9 @@ var modelledOps = map[string]bool{
 	"IfAddReceived": true, "IfRemoveReceived": true, "IfRemoveAllReceived": true,
 	"MsgUpdateName": true, "MsgUpdateID": true, "MsgSetStatic": true, "MsgAddReceiver": true, "MsgRemoveReceiver": true,
 	"EnumAddValue": true, "EnumRemoveValue": true, "EnumRemoveAllValues": true, "EvalUpdateName": true, "EvalUpdateIndex": true,
+	// layer 3 (references)
+	"NewStdSignal": true, "NewEnumSignal": true, "StdSetType": true, "StdSetUnit": true, "EnumSetEnum": true,
+	"Assign": true, "RemoveAssign": true, "RemoveAllAssign": true, "BusSetBuilder": true,
 }
 
 // goName: the Go method an operation stands for (call site in signatures and messages)
